@@ -161,11 +161,14 @@ class Sequence(object):
 
             # we have been enclosed in a context
             elif tag.tagClass == Tag.closingTagClass:
-                if not element.optional:
+                if element.optional:
+                    # omitted optional element
+                    setattr(self, element.name, None)
+                elif (element.klass in _sequence_of_classes) or (element.klass in _list_of_classes):
+                    # empty list, same as running out of tags
+                    setattr(self, element.name, [])
+                else:
                     raise MissingRequiredParameter("%s is a missing required element of %s" % (element.name, self.__class__.__name__))
-
-                # omitted optional element
-                setattr(self, element.name, None)
 
             # check for a sequence element
             elif element.klass in _sequence_of_classes:
